@@ -22,6 +22,8 @@ def technique(pid, s):
     if gens:
         parts.append("behaviours exported by TLC from " + ", ".join("spec/" + g for g in gens) + " and replayed on the real crate")
     parts.append("trace validation of events recorded from the real crate against spec/Trace.tla (one TLC run per shard, every event judged)")
+    if any(sc.split(":")[0] in props.DISCOVER for _, sc, _ in s["scen"]):
+        parts.append("inputs for those events also come from a coverage-guided fuzzer (fuzz/, libFuzzer) used as a generator only - its corpus is built by the harness and judged by TLC")
     for which in s.get("apalache", []):
         parts.append("Apalache inductive invariant of spec/" + props.APALACHE[which][0] + (" for unbounded scores" if which == "MaskSelect" else " for a rendering of any length"))
     return base + "; ".join(parts)
